@@ -109,6 +109,84 @@ def _validate(rep, label, hists, traces):
     return bad
 
 
+TERM_DOCS = {
+    # document -> chains whose owner certainly looks for terminators in it
+    "para\nnext line\nthird\n": ["paragraph"],
+    "[foo]: /url\nbar\n\n[baz]:\n/u\nqux\n": ["reference"],
+    "> quote\nlazy\n> more\nlazy again\n": ["blockquote", "paragraph"],
+    "- item\n- two\ntail\n\n1. x\n2. y\n": ["list", "paragraph"],
+    "| a | b |\n|---|---|\n| 1 | 2 |\nrow-ish\n": ["blockquote"],
+    "head\n====\n\ntext\nmore\n": ["paragraph"],
+    "> - in quote\n> lazy\n\n[r]: /u\n'title\nrest'\n": ["reference", "paragraph"],
+}
+CH4 = ["paragraph", "reference", "blockquote", "list"]
+
+
+def term_record(job):
+    """Probe rules, each a member of exactly one named terminator chain, registered by one of the Ruler's
+    registration calls, some of them disabled afterwards; every silent invocation is logged with the
+    parentType of the rule that consulted the chain."""
+    from markdown_it import MarkdownIt
+
+    preset, how, off, doc = job
+    md = MarkdownIt(preset)
+    md.enable(["table"], True)
+    log = []
+
+    def mk(chain):
+        def probe(state, startLine, endLine, silent):
+            if silent:
+                # who consults: the block rule whose frame calls the probe (state.parentType is not reliable: a
+                # failing lheading leaves "paragraph" behind, see SystemTrace)
+                import os
+                import sys
+                log.append([chain, os.path.basename(sys._getframe(1).f_code.co_filename)])
+            return False
+        probe.__name__ = "verif_t_" + chain
+        return probe
+    r = md.block.ruler
+    for k, ch in enumerate(CH4):
+        name, fn, opt = "verif_t_" + ch, mk(ch), {"alt": [ch]}
+        mode = how[k % len(how)]
+        if mode == "push":
+            r.push(name, fn, opt)
+        elif mode == "before":
+            r.before("paragraph", name, fn, opt)
+        elif mode == "after":
+            r.after("code", name, fn, opt)
+        else:   # registered with a wrong membership first, then replaced by at()
+            r.push(name, mk("wrong"), {"alt": list(CH4)})
+            r.at(name, fn, opt)
+    md.parse("warm up\nline\n> q\n")              # chains compiled before the toggles below
+    del log[:]
+    if off:
+        md.disable(["verif_t_" + c for c in off])
+    active = [c for c in CH4 if "verif_t_" + c in md.get_active_rules()["block"]]
+    md.parse(doc)
+    return {"ev": log[:400], "active": active, "expect": TERM_DOCS[doc]}
+
+
+def term_membership(tier, rep):
+    jobs = []
+    hows = [["push"], ["before"], ["after"], ["at"], ["push", "before", "after", "at"], ["at", "after", "before", "push"]]
+    offs = [[], ["reference"], ["paragraph"], ["blockquote", "list"], ["paragraph", "reference", "blockquote", "list"]]
+    for preset in ("commonmark", "js-default", "zero"):
+        for how in hows:
+            for off in offs:
+                for doc in TERM_DOCS:
+                    if preset == "zero":
+                        continue
+                    jobs.append((preset, how, off, doc))
+    traces = C.pmap(term_record, jobs, chunk=16)
+    verdicts, st = C.validate_traces("TermChainTrace", traces, shard=500)
+    rep.tlc_stats("TermChainTrace[named chains as consulted by the parser]", st, len(traces))
+    for job, (v, pos) in zip(jobs, verdicts):
+        if v != "ok":
+            rep.violation(f"term-chains:{v}:{job[0]}:{job[1]}:{job[2]}:{json.dumps(job[3])}",
+                          {"engine": "trace", "module": "TermChainTrace", "clause": v, "term_job": list(job)})
+    return len(jobs)
+
+
 def run(tier, rep):
     cfg = "Ruler_quick.cfg" if tier == "quick" else "Ruler_thorough.cfg"
     # E1 design model
@@ -150,6 +228,7 @@ def run(tier, rep):
     # facade level: same trace spec, one trace per ruler of a real MarkdownIt
     from . import c11_facade
     total += c11_facade.run(tier, rep)
+    total += term_membership(tier, rep)
     nontrivial = len({json.dumps(h, sort_keys=True) for h in hists + ehists + rhists
                       if any(e["op"] == "getRules" for e in h) and len(h) >= 3})
     rep.cov["evaluations"] = total
@@ -168,6 +247,12 @@ def replay(case, rep):
     if case.get("module") == "FacadeTrace":
         from . import c12
         return c12.replay(case, rep)
+    if case.get("module") == "TermChainTrace":
+        j = case["term_job"]
+        v, _ = C.validate_traces("TermChainTrace", [term_record((j[0], j[1], j[2], j[3]))])
+        if v[0][0] != "ok":
+            rep.violation(case.get("key", "replay"), case)
+        return
     h = case["history"]
     t = {"ev": execute(h)}
     _validate(rep, case.get("key", "replay").split(":")[0], [h], [t])
